@@ -7,14 +7,24 @@ import common
 INSTR = os.path.join(common.WORK, 'srv_instr')
 
 def instrument():
-    """instrumented copies of the files defining server / eventLoop methods (tools/extract -instr)"""
+    """instrumented copies of the files defining server / eventLoop methods (tools/extract -instr);
+    redone only when those files (or the extractor) changed"""
+    import hashlib
     os.makedirs(INSTR, exist_ok=True)
-    for f in os.listdir(INSTR): os.remove(os.path.join(INSTR, f))
     exe = os.path.join(common.BIN, 'extract')
-    rc, o = common.sh([exe, '-repo', common.REPO, '-instr', INSTR], env=common.go_env(), timeout=300)
-    if rc != 0:
-        return None, o
-    return {os.path.join(common.REPO, f): os.path.join(INSTR, f) for f in os.listdir(INSTR)}, o
+    h = hashlib.sha1()
+    for f in ('netpoll_server.go', 'netpoll_unix.go'):
+        h.update(open(os.path.join(common.REPO, f), 'rb').read())
+    h.update(open(exe, 'rb').read()); h.update(common.REPO.encode())
+    stamp = os.path.join(INSTR, 'stamp')
+    files = [f for f in os.listdir(INSTR) if f.endswith('.go')]
+    if not (files and os.path.exists(stamp) and open(stamp).read() == h.hexdigest()):
+        for f in os.listdir(INSTR): os.remove(os.path.join(INSTR, f))
+        rc, o = common.sh([exe, '-repo', common.REPO, '-instr', INSTR], env=common.go_env(), timeout=300)
+        if rc != 0:
+            return None, o
+        open(stamp, 'w').write(h.hexdigest())
+    return {os.path.join(common.REPO, f): os.path.join(INSTR, f) for f in os.listdir(INSTR) if f.endswith('.go')}, ''
 
 def build():
     """srvh against REPO's working tree: inpkg files + instrumented server files"""
@@ -142,3 +152,44 @@ def analyse_sweep(wd, plan, harness_out):
             res['problems'].append((cur, kind, 'op=%s | impl=%s | model=%s | spec=%s' % (o, impl[i], model[i], spec[i]), list(trace)))
     close()
     return res
+
+
+# ---------------------------------------------------------------- corpus, real event loops, EMFILE child
+
+def corpus_plan(st, path):
+    """corpus file: lines `<kind> <fn> <k>|*` ('*' = every point of that function)"""
+    plan = []
+    for l in open(path):
+        f = l.split()
+        if len(f) != 3 or l.startswith('#'): continue
+        ks = range(len(st.get(f[1], []))) if f[2] == '*' else [int(f[2])]
+        plan += [(f[0], f[1], k) for k in ks]
+    return plan
+
+def spec_lines(wd, ops_path):
+    out = os.path.join(wd, os.path.basename(ops_path) + '.spec')
+    with open(out, 'w') as o:
+        subprocess.run([common.DRIVER, 'srvspec', ops_path, ops_path], stdout=o, check=True, timeout=600)
+    return read(out)
+
+def run_real(binary, wd, seed, n, probes=''):
+    os.makedirs(wd, exist_ok=True)
+    ops = os.path.join(wd, 'real_%d' % seed)
+    p = subprocess.run([binary, '-mode', 'real', '-seed', str(seed), '-n', str(n), '-probes', probes, '-ops-out', ops],
+                       stdout=subprocess.PIPE, stderr=subprocess.STDOUT, text=True, timeout=900)
+    if p.returncode != 0:
+        raise RuntimeError('srvh real failed: ' + p.stdout[-2000:])
+    lines = read(ops); spec = spec_lines(wd, ops)
+    return [(seed, l, v) for l, v in zip(lines, spec)]
+
+def run_emfile(binary, wd, idx):
+    os.makedirs(wd, exist_ok=True)
+    ops = os.path.join(wd, 'emf_%d' % idx)
+    p = subprocess.run([binary, '-mode', 'emfile', '-ops-out', ops], stdout=subprocess.PIPE, stderr=subprocess.STDOUT, text=True, timeout=300)
+    if p.returncode != 0:
+        raise RuntimeError('srvh emfile failed: ' + p.stdout[-2000:])
+    lines = read(ops); spec = spec_lines(wd, ops)
+    return [(idx, l, v) for l, v in zip(lines, spec)]
+
+def kvs(line):
+    return dict(p.split('=', 1) for p in line.split() if '=' in p)
